@@ -23,6 +23,20 @@ def mc_cfg(name, depth, emit, dead=True, insts="{1, 2}"):
     return os.path.basename(p)
 
 
+# handles that are no instance: NULL, and readable memory that does not carry the tag "SQFE" (zeros, every tag with one byte off, a shorter tag)
+HANDLES = ["null", "zeros", "XQFE", "SXFE", "SQXE", "SQFX", "SQF0", "sqfe"]
+
+
+def handle_histories():
+    """every kind of invalid handle with every entry point, between calls on a live instance"""
+    out = []
+    for hk in HANDLES:
+        for what in ("call", "callempty", "config", "status"):
+            out.append([{"op": "create", "i": 1, "limited": False}, {"op": "call", "i": 1, "type": "s", "kind": "setg1"},
+                        {"op": "null", "i": 0, "what": what, "hk": hk}, {"op": "status", "i": 1}, {"op": "call", "i": 1, "type": "s", "kind": "readg"}])
+    return out
+
+
 def random_histories(rng, n, length):
     out = []
     for _ in range(n):
@@ -41,7 +55,7 @@ def random_histories(rng, n, length):
             elif r < 0.1:
                 h.append({"op": "status", "i": i})
             elif r < 0.15:
-                h.append({"op": "null", "i": 0, "what": rng.choice(["call", "callempty", "config", "status"])})
+                h.append({"op": "null", "i": 0, "what": rng.choice(["call", "callempty", "config", "status"]), "hk": rng.choice(HANDLES)})
             elif r < 0.3:
                 h.append({"op": "config", "i": i, "kind": rng.choice(CFG)})
             elif r < 0.4:
@@ -61,7 +75,7 @@ def run(rep, tier, seed, replay):
     wdir = vlib.workdir("C18")
     rep.assumptions += [
         "time is the guarded virtual clock (1 ms per query, 1 s between calls); the limited instances have max_runtime 0.3 s",
-        "an invalid handle is the NULL pointer (a destroyed handle is freed memory and not passed again)",
+        "an invalid handle is the NULL pointer or readable memory (256 bytes) that does not start with the instance tag: zeros, the tag with one byte changed, a shorter tag, the tag in lower case (a destroyed handle is freed memory and not passed again)",
         "persistence is probed by a later call that logs the probe global / a config entry; callback data are checked for every callback invocation",
         "type 'a' (assembly) is exercised by three hand-written histories only (one valid text, two that are not assembly); 'c' (SQC, not built) counts as unknown type; exit__ inside a call is not asserted",
     ]
@@ -79,6 +93,7 @@ def run(rep, tier, seed, replay):
         rep.add_tlc(g, "Api_MC generator depth %d" % d)
         hists = [json.loads(p) for p in g.prints]
         hists += random_histories(rng, 500 if tier == "quick" else 10000, 12)
+        hists += handle_histories()
         for k in ("asmok", "asmbad", "asmrecover"):
             hists.append([{"op": "create", "i": 1, "limited": False}, {"op": "call", "i": 1, "type": "a", "kind": k}, {"op": "call", "i": 1, "type": "s", "kind": "readg"}])
         cases = [{"id": "h%d" % i, "ops": h} for i, h in enumerate(hists)]
